@@ -7,11 +7,19 @@ MODULES = ["MmtkModel.Props.C11"]
 THEOREMS = ["Mmtk.Sched.stop_before_trace", "Mmtk.Sched.stw_open_means_stopped", "Mmtk.Sched.stopped_only_in_gc",
             "Mmtk.Sched.one_stop_per_gc", "Mmtk.Sched.resume_once_after_all", "Mmtk.Sched.no_stw_after_resume",
             "Mmtk.Sched.generated_wf2", "Mmtk.Sched.step_invS", "Mmtk.Sched.onLastParked_stopped",
-            "Mmtk.Sched.onLastParked_opens_first"]
+            "Mmtk.Sched.onLastParked_opens_first",
+            # last clause: a mutator that requested a GC is blocked until that GC has ended (Model/Requesters.lean)
+            "Mmtk.Req.requester_blocked_until_gc_end", "Mmtk.Req.requester_leaves_only_after_gc_end",
+            "Mmtk.Req.requester_returns_after_gc_end_mono", "Mmtk.Req.blocked_requester_has_pending_gc",
+            "Mmtk.Req.requested_means_flag_set", "Mmtk.Req.merged_request_not_blocked",
+            "Mmtk.Req.merged_request_not_blocked_refutes", "Mmtk.Req.skipBlock_not_in_code", "Mmtk.Req.step_inv",
+            "Mmtk.Req.step_ret", "Mmtk.Req.step_mono", "Mmtk.Req.reachable_inv",
+            "Mmtk.Sched.sched_gcDone_mono", "Mmtk.Sched.sched_gcDone_mono_run", "Mmtk.Sched.sched_request_merges",
+            "Mmtk.Sched.sched_request_sets_flag"]
 KEYS = S.COMMON_KEYS + ("gc:scan-outside-stw-packet", "gc:scan-before-stop", "gc:scan-twice", "gc:scan-count",
                         "gc:scan-passes", "gc:resume-outside-gc-end", "gc:resume-while-running", "gc:resume-without-stop",
                         "gc:stw-packet-without-stop", "gc:unblocked-before-resume", "sched:stw-open-at-resume",
-                        "sched:not-quiescent")
+                        "sched:not-quiescent") + S.REQ_KEYS
 
 META = {
     "text": "Lean model Model/Sched.lean: stopAll (StopMutators calls stop_all_mutators), openFirst (notify_mutators_paused "
@@ -25,11 +33,27 @@ META = {
             "(resume_once_after_all); while mutators are not stopped every STW bucket is closed (no_stw_after_resume). Tie: "
             "event-log conformance of real GCs with 1-4 mutators on all plans; binding callbacks VmStopBegin/End, "
             "VmScanMutator, VmResume, VmBlockEnter/Leave are checked against the model state "
-            "and by Python oracles on the log alone.",
+            "and by Python oracles on the log alone. Last clause (requester blocked until the GC has ended): Lean model "
+            "Model/Requesters.lean of the mutator side (GCTrigger::request sets request_flag and says whether this call set "
+            "it; MMTK::handle_user_collection_request then calls block_for_gc — in the code regardless of that — which waits "
+            "until resume_mutators has been called; stop_all_mutators returns only when no requester is between request() "
+            "and block_for_gc). Proved for any number of requesters and every interleaving with the collector and with "
+            "allocation polls: a call returns only with `true` and only after a pause that began after the request has "
+            "ended (requester_blocked_until_gc_end; transition form requester_leaves_only_after_gc_end); without the "
+            "safepoint contract, under nothing but the monotonicity of gcDone (sched_gcDone_mono: proved of the scheduler "
+            "model), a pause ended between request and return (requester_returns_after_gc_end_mono); a blocked requester "
+            "always has a pending request or a pause in progress (blocked_requester_has_pending_gc); kernel-evaluated "
+            "witness merged_request_not_blocked for the variant that blocks only if the call itself set the flag. Tie: hx_gc "
+            "`gc2 mA mB` / `gcn` — the driver and helper mutator THREADS (counted by stop_all_mutators like the driver) call "
+            "handle_user_collection_request after a spin rendezvous with skews in both directions (spinning, or sleeping "
+            "in a safe region); the `reqm` monitor replays the requester events of every run against the Lean model, and "
+            "Python oracles evaluate the clause on the answers (returned true, block_for_gc entered, gcs_at_return > "
+            "gcs_before, every request served, k merged requests -> 1..k collections) and on the event log.",
     "note": "'Each mutator scanned exactly once' cannot be stated about abstract packets; it is checked on every replayed GC "
             "(per root-scanning pass: MarkCompact scans every mutator a second time in SecondRoots by design — the literal "
-            "'exactly once per collection' does not hold for that plan). 'Requester blocked until resume' is a binding-side "
-            "oracle.",
+            "'exactly once per collection' does not hold for that plan). The requester clause is proved of the model of "
+            "mmtk-core's side plus VerifVM's block_for_gc (the binding's part of the contract); which of two simultaneous "
+            "requests is merged depends on the OS schedule (both orders are produced; the evidence counts them).",
     "technique": "Lean 4 proof: inductive invariants of an n-thread model; event-log conformance monitor + binding-callback oracles",
     "category": "proof",
 }
@@ -45,6 +69,10 @@ def build_programs(rng, tier):
         body = S.body_storm(rng, plan, n_wide=2, fields=[64, 400][i % 2], depth=[50, 800][(i // 2) % 2], gcs=3,
                             mutators=muts, eph=[0, 1, 2, 4][(i // 3) % 4], nonmoving=plan in S.NONMOVING_OK)
         progs.append(S.Prog(f"b{i}-{plan}-w{w}-m{muts}", plan, w, body, yseed=0 if i % 3 == 0 else rng.randrange(1, 1 << 30)))
+    # two (or more) mutators request a collection at the same moment (seeded regression C11b: a merged request
+    # returned false and its requester was not blocked)
+    progs += S.gc2_programs(rng, 20 if tier == "quick" else 300)
+    progs += S.nogc_gc2_programs(rng, 1 if tier == "quick" else 6)
     return progs
 
 
